@@ -86,6 +86,9 @@ impl<'a> Visitor for V<'a> {
                 self.st.label(if enc_len(post.seq) != enc_len(pre.seq) { "seq:+1-encoding-grows" } else { "seq:+1" });
             }
             (_, CallRes::Err(k, m)) => {
+                if post.seq != pre.seq {
+                    return Err(format!("{d}: a failed call moved the sequence number from {} to {} (the number counts successful updates)", pre.seq, post.seq));
+                }
                 if pre.seq == u64::MAX && !matches!(op, Op::SetSeq { .. }) {
                     self.nontrivial = true;
                     self.st.label("seq:update-at-max");
